@@ -684,6 +684,7 @@ or a list of these
                 )
                 partlist.append(part_groups[pg_nr])
             part_groups[pg_nr].children.append(part)
+            part.parent = part_groups[pg_nr]
 
     # add tempos to first part
     part = next(score.iter_parts(partlist))
